@@ -1,0 +1,13 @@
+//go:build !verif
+
+package cafs
+
+import "sync"
+
+// simLock is the lock behind LeafBuffer.Pin / Unpin, and the type of the latches that may be held while waiting for a pin.
+type simLock = sync.Mutex
+
+// simYield marks a point where a goroutine of this package is about to use, or has just taken hold of, an in-memory
+// resource it shares with other goroutines (a pinned leaf buffer, the leaf cache, the buffer free list).
+// It does nothing in ordinary builds; see simyield_verif.go.
+func simYield(string) {}
